@@ -386,3 +386,27 @@ func vStubDispatch(c *clientConn, ch chan<- result, p idmarshaler) {
 	typ, data, _ := vStubSendPacket(c, nil, nil, p)
 	ch <- result{typ: typ, data: data}
 }
+
+// Not registered: does not finish (97k paths in 5 min, no violation in 35k complete traces).
+// the decoder inside WriteTo's worker goroutine (concurrent path, one worker):
+// the reply to one of the first two chunk requests is arbitrary
+//
+//verif:noredirect (*github.com/pkg/sftp.clientConn).sendPacket
+//verif:redirect (*github.com/pkg/sftp.clientConn).sendPacket vStubSendPacket
+//verif:redirect (*github.com/pkg/sftp.clientConn).dispatchRequest vStubDispatch
+//verif:atomic-invisible
+//verif:unwind 5
+//verif:prune-unwind
+//verif:tier manual
+func vh_C20_writeto_worker() {
+	c := vClient()
+	defer vDone(c)
+	c.maxPacket, c.maxConcurrentRequests, c.disableConcurrentReads, c.useFstat = 4, 1, false, true
+	vReplyCap = 13
+	vArbAt = 1 + vChoice(2) // request 0 is the size query (answered: 20 bytes, regular file)
+	f := vFile(c)
+	w := &vBuf{}
+	n, err := f.WriteTo(w)
+	vAssert(n >= 0 && int(n) == len(w.b), "count equals the bytes handed to the writer")
+	vEmit("err", err != nil)
+}
